@@ -1,6 +1,6 @@
 import SfxModel.ExtFrom
 import SfxProofs.Convert
-import SfxProofs.ToFloat
+import SfxProofs.HalfFloat
 import SfxProps.C04
 /-
   ExtFrom.lean — the type-level (infallible) conversion traits (`SfxModel/ExtFrom.lean`): model = documented answer for every impl
@@ -109,6 +109,40 @@ theorem fixedToFloat_lossless (F : FloatFmt) (hF : F = f32 ∨ F = f64) (S : Lay
     have hbN := bitLen_le haN
     have hb0 := bitLen_pos (by omega : 0 < x.natAbs)
     exact ⟨F.prec - bitLen x.natAbs, rneFloat_exact F hp hpn S.f x hx0 (by omega) (by omega) (by omega)⟩
+
+/-- format-generic form of `fixedToFloat_lossless` (used for the `cfg(feature = "f16")` row `From<FixedI8/U8> for f16`): given that the
+conversion is the nearest float, a source whose width fits the significand and whose values stay in the normal exponent range converts exactly -/
+theorem fixedToFloat_lossless_of (F : FloatFmt) (S : Layout) (hS : S.valid) (x : Int) (hx : inRange S x)
+    (hlossy : fixedToFloat S F x = rneFloat F S.f x)
+    (hp : 2 ≤ F.prec) (hpn : F.prec + 2 ≤ F.nbits) (hw : S.n ≤ F.prec)
+    (hmin : (S.n : Int) ≤ -F.expMin) (hmax : (S.n : Int) - 1 ≤ F.expMax)
+    (hz : floatExact F 0 = some (0, F.expMin - ((F.prec : Int) - 1))) :
+    ∃ k : Nat, floatExact F (fixedToFloat S F x) = some (x * 2 ^ k, -(k : Int) - S.f) := by
+  rw [hlossy]
+  have hn8 := valid_ge8 hS
+  have hf := hS.2
+  by_cases hx0 : x = 0
+  · subst hx0
+    refine ⟨(-(F.expMin - ((F.prec : Int) - 1)) - S.f).toNat, ?_⟩
+    have : rneFloat F S.f 0 = 0 := by simp [rneFloat]
+    rw [this, hz, Int.zero_mul]
+    congr 2
+    omega
+  · have haN := natAbs_lt_of_inRange S (by omega) x hx
+    have hbN := bitLen_le haN
+    have hb0 := bitLen_pos (by omega : 0 < x.natAbs)
+    exact ⟨F.prec - bitLen x.natAbs, rneFloat_exact F hp hpn S.f x hx0 (by omega) (by omega) (by omega)⟩
+
+/-- format-generic form of `fcvt_from_answer` -/
+theorem fcvt_from_answer_of (F : FloatFmt) (S : Layout) (x : Int)
+    (hlossy : fixedToFloat S F x = rneFloat F S.f x)
+    (hk : ∃ k : Nat, floatExact F (fixedToFloat S F x) = some (x * 2 ^ k, -(k : Int) - S.f)) :
+    toString (fixedToFloat S F x) = specFixedToFloat true F S.f x := by
+  obtain ⟨k, hk⟩ := hk
+  rw [hlossy] at hk ⊢
+  unfold specFixedToFloat floatIsExactly
+  simp only [hk, cmpExactFloat_exact]
+  simp
 
 /-- the answers of `fcvt_lossy` / `fcvt_linto`: model = documented -/
 theorem fcvt_lossy_answer (F : FloatFmt) (hF : F = f32 ∨ F = f64) (S : Layout) (hS : S.valid) (x : Int) (hx : inRange S x) :
@@ -450,6 +484,22 @@ theorem hasToFloat_sound (S : Layout) (fty : String) (h : hasToFloat "From" S ft
     simp [toFloatSound, hF] at hsound
     exact ⟨F, rfl, hsound.1.1⟩
 
+/-- `hasToFloat_sound` with the exponent-range part of `toFloatSound` kept -/
+theorem hasToFloat_sound' (S : Layout) (fty : String) (h : hasToFloat "From" S fty = true) :
+    ∃ F, floatOf fty = some F ∧ S.n ≤ F.prec ∧ (S.n : Int) ≤ -F.expMin ∧ (S.n : Int) - 1 ≤ F.expMax := by
+  unfold hasToFloat at h
+  obtain ⟨r, hmem, hpred⟩ := List.any_eq_true.mp h
+  have hsound := List.all_eq_true.mp to_float_table_sound r hmem
+  obtain ⟨t, ss, sn, fl, cfg⟩ := r
+  simp only [Bool.and_eq_true, beq_iff_eq] at hpred
+  obtain ⟨⟨⟨⟨⟨ht, _⟩, hsn⟩, hfl⟩, _⟩, _⟩ := hpred
+  subst ht hsn hfl
+  cases hF : floatOf fl with
+  | none => simp [toFloatSound, hF] at hsound
+  | some F =>
+    simp [toFloatSound, hF] at hsound
+    exact ⟨F, rfl, hsound.1.1, hsound.1.2, hsound.2⟩
+
 /-- an integer → float row documented as lossless is sound when the integer type has a fixed width that fits the significand
 (`usize` / `isize` may be wider than any guarantee, so they must be documented as lossy) -/
 def intToFloatSound : String × String × Bool × Bool → Bool
@@ -536,19 +586,28 @@ theorem icvt_to_int_row (p : Profile) (tr : String) (S : Layout) (hS : S.valid) 
   obtain ⟨c, d, e⟩ := icvt_to_int_answer p S hS di dn hdn hl x hx
   exact ⟨a, b, c, d, fun ht => ⟨hfrom ht, (fixedToInt_spec S hS (hfrom ht) di dn hdn hl x hx).1, e (hfrom ht)⟩⟩
 
-/-- `fcvt_from`: whenever the lookup finds a `From<Fixed> for f32 / f64` impl, the result denotes the source value exactly and is the
+/-- `fcvt_from`: whenever the lookup finds a `From<Fixed> for f32 / f64` (or, feature `f16`, `for f16`) impl, the result denotes the source value exactly and is the
 documented answer -/
 theorem fcvt_from_row (S : Layout) (hS : S.valid) (fty : String) (h : hasToFloat "From" S fty = true) (F : FloatFmt)
     (hF : primFloat fty = some F) (x : Int) (hx : inRange S x) :
     (∃ k : Nat, floatExact F (fixedToFloat S F x) = some (x * 2 ^ k, -(k : Int) - S.f)) ∧
     toString (fixedToFloat S F x) = specFixedToFloat true F S.f x := by
-  obtain ⟨F', hF', hw⟩ := hasToFloat_sound S fty h
-  have hFF : F' = F ∧ (F = f32 ∨ F = f64) := by
+  obtain ⟨F', hF', hw, hmn, hmx⟩ := hasToFloat_sound' S fty h
+  have hFF : F' = F ∧ (F = f32 ∨ F = f64 ∨ F = f16 ∨ F = bf16) := by
     unfold primFloat at hF
-    split at hF <;> simp [floatOf] at hF hF' <;> subst hF <;> subst hF' <;> simp
+    split at hF <;> simp [floatOf] at hF hF' <;> subst hF <;> subst hF' <;> (refine ⟨rfl, ?_⟩; simp)
   obtain ⟨e, hF2⟩ := hFF
   subst e
-  exact ⟨fixedToFloat_lossless F' hF2 S hS hw x hx, fcvt_from_answer F' hF2 S hS hw x hx⟩
+  have hlossy : fixedToFloat S F' x = rneFloat F' S.f x := by
+    rcases hF2 with h | h | h | h
+    · exact toFloat_eq_rneFloat F' (Or.inl h) S hS x hx
+    · exact toFloat_eq_rneFloat F' (Or.inr h) S hS x hx
+    · exact HalfPf.toFloat_eq_rneFloat F' (Or.inl h) S hS x hx
+    · exact HalfPf.toFloat_eq_rneFloat F' (Or.inr h) S hS x hx
+  have hfacts : 2 ≤ F'.prec ∧ F'.prec + 2 ≤ F'.nbits ∧ floatExact F' 0 = some (0, F'.expMin - ((F'.prec : Int) - 1)) := by
+    rcases hF2 with h | h | h | h <;> subst h <;> decide
+  have hk := fixedToFloat_lossless_of F' S hS x hx hlossy hfacts.1 hfacts.2.1 hw hmn hmx hfacts.2.2
+  exact ⟨hk, fcvt_from_answer_of F' S x hlossy hk⟩
 
 /-- `cvt_lossy_into`: whenever the lookup finds a `LossyFrom` impl between the two fixed-point types, the call returns the exact
 conversion result in both profiles -/
